@@ -196,14 +196,6 @@ def fmt2 (fmt : String) (a b : List Byte) : List Byte :=
 def acceptKey (sha1 : List Byte → List Byte) (key : List Byte) : List Byte :=
   ntop (sha1 (key ++ strBytes C09.guid))
 
-/-- the sub-protocol decision: (base64 flag, protocol string of the response; [] = no line) -/
-def chooseProtocol (offered : Option (List Byte)) : Bool × List Byte :=
-  match offered with
-  | some p =>
-    if hasInfix bBase64 p then (true, bBase64)
-    else if hasInfix bBinary p then (false, bBinary) else (false, [])
-  | none => (false, [])
-
 /-- the comma-separated elements of a `Sec-WebSocket-Protocol` value (blanks not yet stripped) -/
 def splitComma : List Byte → List (List Byte)
   | [] => [[]]
@@ -217,6 +209,24 @@ def isBlank (c : Byte) : Bool := c == 32 || c == 9
 def stripBlanks (s : List Byte) : List Byte := ((s.dropWhile isBlank).reverse.dropWhile isBlank).reverse
 /-- the offered sub-protocol tokens -/
 def offerTokens (p : List Byte) : List (List Byte) := (splitComma p).map stripBlanks
+
+/-- the sub-protocol decision: (base64 flag, protocol string of the response; [] = no line).
+Token-wise (`webSocketsProtocolOffered`, fixes/C09-subprotocol-token-match.diff): `base64` if it is
+one of the offered tokens, else `binary` if it is, else nothing. -/
+def chooseProtocol (offered : Option (List Byte)) : Bool × List Byte :=
+  match offered with
+  | some p =>
+    if (offerTokens p).contains bBase64 then (true, bBase64)
+    else if (offerTokens p).contains bBinary then (false, bBinary) else (false, [])
+  | none => (false, [])
+
+/-- the code as found: `strstr` on the whole header value (substring match) -/
+def chooseProtocolUnfixed (offered : Option (List Byte)) : Bool × List Byte :=
+  match offered with
+  | some p =>
+    if hasInfix bBase64 p then (true, bBase64)
+    else if hasInfix bBinary p then (false, bBinary) else (false, [])
+  | none => (false, [])
 
 /-- everything after the read loop -/
 def finishHandshake (sha1 : List Byte → List Byte) (s : Scan) (unread : List Byte) : HsResult :=
